@@ -117,7 +117,7 @@ func c08Check(c *core.Ctx, b []byte, kind string) {
 
 func runC08(c *core.Ctx) {
 	// (i) uniform random strings, every length
-	reps := c.N(60, 6000)
+	reps := c.N(60, 60000)
 	idx := int64(0)
 	for rep := int64(0); rep < reps; rep++ {
 		if !c.Mine("uniform", rep) {
@@ -134,7 +134,7 @@ func runC08(c *core.Ctx) {
 	}
 
 	// (ii) structure-aware mutations
-	n := c.N(40000, 3000000)
+	n := c.N(40000, 60000000)
 	for i := int64(0); i < n; i++ {
 		if !c.Mine("mutate", i) {
 			continue
@@ -227,7 +227,7 @@ func runC08(c *core.Ctx) {
 	}
 
 	// (ii-b) a receiver that decodes successive inputs into the same PHYPayload value
-	m := c.N(20000, 1500000)
+	m := c.N(20000, 20000000)
 	var reused lorawan.PHYPayload
 	for i := int64(0); i < m; i++ {
 		if !c.Mine("reused-receiver", i) {
